@@ -149,6 +149,12 @@ func (g *EvGen) value(w *jw, key string, depth int) string {
 
 // Next generates one event with the given timestamp.
 func (g *EvGen) Next(ts int64) *Event {
+	if g.family == "agg" {
+		return g.nextAgg(ts)
+	}
+	if g.family == "sortable" {
+		return g.nextSortable(ts)
+	}
 	g.n++
 	vid := fmt.Sprintf("%s%d", g.prefix, g.n)
 	w := &jw{flat: map[string]Val{}}
